@@ -231,7 +231,8 @@ class Program:
             self.modules[mod.name] = mod
         self.inlined, self.not_inlined = [], []
         if self.normalize:
-            from .normalize import inline_new_helpers
+            from .normalize import inline_new_helpers, desugar_match
+            desugar_match({m.name: m.tree for m in self.modules.values()})
             self.inlined, self.not_inlined = inline_new_helpers({m.name: m.tree for m in self.modules.values()})
         self.absorbed = {h for _caller, h in self.inlined}       # new helpers whose bodies are analysed at their call sites
         for mod in self.modules.values():
